@@ -27,7 +27,7 @@ var (
 func main() {
 	if len(os.Args) < 2 {
 		fmt.Fprintln(os.Stderr, "usage: drive <sub> -in cases -out obs [-skip n] [-seed s]")
-		os.Exit(2)
+		os.Exit(64)
 	}
 	sub := os.Args[1]
 	fs := flag.NewFlagSet(sub, flag.ExitOnError)
@@ -49,17 +49,17 @@ func main() {
 	h, ok := handlers[sub]
 	if !ok {
 		fmt.Fprintln(os.Stderr, "unknown subcommand", sub)
-		os.Exit(2)
+		os.Exit(64)
 	}
 	fin, err := os.Open(*in)
 	if err != nil {
 		fmt.Fprintln(os.Stderr, err)
-		os.Exit(2)
+		os.Exit(64)
 	}
 	fout, err := os.OpenFile(*out, os.O_APPEND|os.O_WRONLY|os.O_CREATE, 0o644)
 	if err != nil {
 		fmt.Fprintln(os.Stderr, err)
-		os.Exit(2)
+		os.Exit(64)
 	}
 	w := bufio.NewWriterSize(fout, 1<<20)
 	sc := bufio.NewScanner(fin)
@@ -76,10 +76,11 @@ func main() {
 		b, err := json.Marshal(obs)
 		if err != nil {
 			fmt.Fprintln(os.Stderr, "marshal:", err)
-			os.Exit(2)
+			os.Exit(64)
 		}
 		w.Write(b)
 		w.WriteByte('\n')
+		w.Flush() // a later case may kill the process: everything recorded so far must be on disk
 		if hung {
 			// the stuck goroutine cannot be killed: flush and let the orchestrator restart us after this case
 			w.Flush()
